@@ -1040,6 +1040,7 @@ func init() {
 			{Name: "members-direct", Count: n, Run: c18Direct},
 			{Name: "members-programs", Count: func(tier string) int { return 2 * n(tier) }, Run: c18Prog},
 			{Name: "members-results-are-fresh", Count: func(tier string) int { return 2 * n(tier) }, Run: c18Fresh},
+			{Name: "results-share-nothing-with-their-receivers", Count: func(string) int { return c18SharedCount() }, Run: func(_ string, idx int, r *Result) { c18SharedRun(idx, r) }},
 			{Name: "any-object-fields-of-every-kind", Count: func(string) int { return c18FieldCount() }, Run: c18Fields},
 		}}
 	})
